@@ -317,3 +317,85 @@ pub fn gen_input(rng: &mut crate::prng::Rng, depth: usize, damage: u8) -> Vec<u8
     }
     out
 }
+
+// ---------------------------------------------------------------------------------------------
+// "Defining a declared parser a second time is refused with a panic at the definition site, never
+// silently accepted" — over the *type of the first definition*. lifesim defines its declared parsers
+// with bodies that own a handle to themselves; a grammar written "declare everything, then define one
+// by one" also has leaf non-terminals whose definition is a zero-sized parser (`any().filter(f)`,
+// `any()`, a `try_map` with a capture-less closure), a one-byte one (`just(b)`), a boxed one.
+
+pub const N_DEF_KINDS: u8 = 7;
+pub const DEF_KIND_NAMES: [&str; 7] = ["any().filter(fn) [zero-sized]", "any() [zero-sized]", "any().try_map(fn) [zero-sized]", "just(b'x')", "just(b'x').boxed()", "self-referential", "empty().to(b'e') [nullable]"];
+
+type RU<'a> = Recursive<chumsky::recursive::Indirect<'a, 'a, In<'a>, u8, Er<'a>>>;
+
+fn define_kind<'a>(r: &mut RU<'a>, kind: u8, second: bool) {
+    // (the second definition is always a different parser, often of the same type as the first)
+    let me = r.clone();
+    match (kind, second) {
+        (0, false) => r.define(any().filter(|c: &u8| c.is_ascii_digit())),
+        (0, true) => r.define(any().filter(|c: &u8| c.is_ascii_alphabetic())),
+        (1, false) => r.define(any()),
+        (1, true) => r.define(any().filter(|c: &u8| *c == b'q')),
+        (2, false) => r.define(any().try_map(|c: u8, span| if c.is_ascii_digit() { Ok(c) } else { Err(Rich::custom(span, "not a digit")) })),
+        (2, true) => r.define(any().try_map(|c: u8, span| if c.is_ascii_alphabetic() { Ok(c) } else { Err(Rich::custom(span, "not a letter")) })),
+        (3, false) => r.define(just(b'7')),
+        (3, true) => r.define(just(b'a')),
+        (4, false) => r.define(just(b'7').boxed()),
+        (4, true) => r.define(any().boxed()),
+        (5, false) => r.define(just(b'(').ignore_then(me).then_ignore(just(b')')).or(just(b'7'))),
+        (5, true) => r.define(just(b'[').ignore_then(me).then_ignore(just(b']')).or(just(b'a'))),
+        (_, false) => r.define(empty().to(b'e')),
+        (_, true) => r.define(any()),
+    }
+}
+
+/// the declared parser `leaf` used by a second rule: item = '<' leaf '>' | leaf
+fn observe<'a>(leaf: &RU<'a>) -> Vec<String> {
+    let item = leaf.clone().delimited_by(just(b'<'), just(b'>')).or(leaf.clone()).then_ignore(end());
+    [&b"7"[..], b"a", b"q", b"<7>", b"<a>", b"((7))", b"[a]", b"", b"<>"]
+        .iter()
+        .map(|i| {
+            let (o, e) = item.parse(*i).into_output_errors();
+            let (c, e2) = item.check(*i).into_output_errors();
+            format!("{:?} {} / {} {}", o, e.len(), c.is_some(), e2.len())
+        })
+        .collect()
+}
+
+/// Some((class, expected, observed)) if the second definition is not refused as C12 demands.
+/// `via_clone`: the second define goes through a clone of the handle; `use_between`: the parser is
+/// used between the two definitions.
+pub fn define_twice_check(kind: u8, via_clone: bool, use_between: bool) -> Option<(String, String, String)> {
+    let r = catch_unwind(AssertUnwindSafe(|| {
+        let mut leaf: RU<'_> = Recursive::declare();
+        define_kind(&mut leaf, kind, false);
+        // what the first definition does, from a separately built parser
+        let mut fresh: RU<'_> = Recursive::declare();
+        define_kind(&mut fresh, kind, false);
+        let want = observe(&fresh);
+        if use_between {
+            let _ = observe(&leaf);
+        }
+        let second = catch_unwind(AssertUnwindSafe(|| {
+            if via_clone {
+                let mut c = leaf.clone();
+                define_kind(&mut c, kind, true);
+            } else {
+                define_kind(&mut leaf, kind, true);
+            }
+        }));
+        let msg = if second.is_err() { Some(hook::take_panic()) } else { None };
+        (msg, want, observe(&leaf))
+    }));
+    let exp = format!("second define() panics with {:?} at its caller (rectypes.rs) and the parser keeps behaving as its first definition", crate::lifesim::DEFINE_ONCE_MSG);
+    match r {
+        Err(_) => Some(("define-twice-replica: panicked outside the second define".into(), exp, format!("panicked: {}", hook::take_panic()))),
+        Ok((None, _, _)) => Some(("second-define-accepted".into(), exp, "a second define() returned normally".into())),
+        Ok((Some(m), _, _)) if !m.contains(crate::lifesim::DEFINE_ONCE_MSG) => Some(("second-define-wrong-panic".into(), exp, m)),
+        Ok((Some(m), _, _)) if !m.contains("rectypes.rs") => Some(("second-define-not-at-definition-site".into(), exp, m)),
+        Ok((Some(_), want, got)) if want != got => Some(("second-define-changed-the-parser".into(), format!("{:?}", want), format!("{:?}", got))),
+        _ => None,
+    }
+}
